@@ -48,8 +48,10 @@ def live_literals():
     m = re.search(r"chunk_size\s*=\s*(\d+)", src)
     out["chunk_size"] = int(m.group(1)) if m else None
     out["arange"] = re.findall(r"np\.arange\(\s*(\w+)\s*,\s*(\w+)\s*,\s*(\w+)\s*\)", src)
+    # offset = int((w - M) / K)  ->  ("halfm", K, M);   offset = int(w / K)  ->  ("half", K)
     m = re.search(r"offset\s*=\s*int\(\s*\(\s*disp\.attrs\[\"window_size\"\]\s*-\s*(\d+)\s*\)\s*/\s*(\d+)\s*\)", src)
-    out["offset"] = (int(m.group(1)), int(m.group(2))) if m else None
+    m2 = re.search(r"offset\s*=\s*int\(\s*disp\.attrs\[\"window_size\"\]\s*/\s*(\d+)\s*\)", src)
+    out["offset"] = ("halfm", int(m.group(2)), int(m.group(1))) if m else (("half", int(m2.group(1))) if m2 else None)
     m = re.search(r"(\w+)\s*,\s*(\w+)\s*=\s*disp\[\"disparity_map\"\]\.shape", src)
     out["shape_names"] = (m.group(1), m.group(2)) if m else None
     return out
